@@ -463,6 +463,34 @@ func drawC10(t *rapid.T) c10Case {
 		h = true
 	}
 	c.SuiteBy = rapid.IntRange(0, 3).Draw(t, "suiteBy")
+	if rapid.IntRange(0, 5).Draw(t, "deepSuite") == 0 {
+		// deep case: a well-formed suite STRING (session token S, S000 .. S999), a valid secret and admissible fields, so that
+		// the derivation itself runs — with the session information at any length 0..140 (longer or shorter than the nnn of
+		// Snnn) and, in a third of the cases, one more field at an odd length
+		name := grammarSuite(t)
+		if i := strings.Index(name, "-S"); i >= 0 && !strings.HasPrefix(name[i:], "-SHA") {
+			j := i + 2
+			for j < len(name) && name[j] >= '0' && name[j] <= '9' {
+				j++
+			}
+			name = name[:i] + "-S" + rapid.SampledFrom([]string{"", "000", "001", "008", "020", "064", "100", "127", "128", "129", "512", "999"}).Draw(t, "deepSnnn") + name[j:]
+		}
+		rd, _ := ref.ReadSuite(name, false)
+		c.S[4], c.SuiteBy = []byte(name), 2
+		if rapid.IntRange(0, 3).Draw(t, "deepSecret") != 0 {
+			c.S[0] = []byte(validSecret)
+		}
+		c.BNil = [5]bool{}
+		c.B[0], c.B[4] = make([]byte, 8), make([]byte, 8)
+		c.B[1] = make([]byte, rapid.IntRange(ref.QMin(rd.Cfg.QFormat), 128).Draw(t, "deepQ"))
+		c.B[2] = make([]byte, ref.PLen(maxI(rd.Cfg.PHash, 1)))
+		c.B[3] = make([]byte, rapid.IntRange(0, 140).Draw(t, "deepS"))
+		if rapid.IntRange(0, 2).Draw(t, "deepOdd") == 0 {
+			c.B[rapid.IntRange(0, 4).Draw(t, "deepOddField")] = make([]byte, rapid.SampledFrom([]int{0, 1, 7, 9, 19, 21, 63, 65, 127, 129, 255, 1000}).Draw(t, "deepOddLen"))
+		}
+		c.Cfg.Digits = rd.Cfg.Digits // the code submitted by the ValidateOCRA operation has the suite's length
+		h = true
+	}
 	c.NilP = rapid.IntRange(0, 7).Draw(t, "nilP") == 0
 	c.URLKind = rapid.IntRange(0, 4).Draw(t, "urlKind")
 	c.Hostile = h
